@@ -256,6 +256,29 @@ def gen_spec(rng, cls, n):
         p = rng.choice(["AA", "ACG", "GAATTC", "CGTCTC", "ANT"])
         kw = {"pattern": p, "occurences": rng.choice([0, 1, 1, 2, 3]), "location": rng.choice([None, rloc(rng, n)])}
         return (cls, tuple(sorted(kw.items()))), role, seq
+    if cls == "EnforceGCContent" and rng.random() < 0.25:
+        # goal met exactly on a bound: a w-periodic sequence has the same G/C count k in every window;
+        # bounds / target written as the decimal k/w (the documented goal is then completely met)
+        w = rng.choice([10, 10, 20, 20, 25, 50])
+        k = rng.randint(1, w - 1)
+        unit = ["G" if i < k else "A" for i in range(w)]
+        rng.shuffle(unit)
+        unit = "".join(rng.choice("GC") if c == "G" else rng.choice("AT") for c in unit)
+        seq = (unit * 4)[:w * 2 + rng.randint(0, w)]
+        frac = float(Fraction(k, w))
+        if float(repr(frac)) != frac or Fraction(repr(frac)) != Fraction(k, w):
+            frac = None
+        mode = rng.random()
+        if frac is None or mode < 0.2:
+            kw = {"mini": 0.0 if frac is None else max(0.0, round(frac - 0.1, 2)), "maxi": 1.0, "window": w, "location": None}
+        elif mode < 0.45:
+            kw = {"mini": frac, "maxi": 1.0, "window": w, "location": None}
+        elif mode < 0.7:
+            kw = {"mini": 0.0, "maxi": frac, "window": w, "location": None}
+        else:
+            kw = {"target": frac, "window": w, "location": None}
+            role = "objective"
+        return (cls, tuple(sorted(kw.items()))), role, seq
     if cls == "EnforceGCContent":
         w = rng.choice([None, 4, 5, 8, 10, 16])
         mini, maxi = rng.choice([(0.25, 0.75), (0.3, 0.7), (0.4, 0.6), (0.0, 0.5), (0.5, 1.0), (0.375, 0.625)])
@@ -269,7 +292,7 @@ def gen_spec(rng, cls, n):
         loc = rng.choice([None, rloc(rng, n, strands=(1, -1), mult=3, minlen=3)])
         if loc is None:
             seq = seq[:n // 3 * 3]
-        table = rng.choice(["Standard", "Standard", "Bacterial", "Yeast Mitochondrial"])
+        table = rng.choice(["Standard", "Standard", "Bacterial", "Yeast Mitochondrial", "Vertebrate Mitochondrial"])
         kw = {"genetic_table": table, "location": loc}
         if cls == "EnforceTranslation":
             pol = rng.choice([None, None, "keep", "ATG", ("ATG", "GTG")])
@@ -283,23 +306,37 @@ def gen_spec(rng, cls, n):
                     s[a:a + 3] = "ATG"
                 seq = "".join(s)
             kw["start_codon"] = pol
-            if rng.random() < 0.3:
-                from dnachisel.biotools import translate
+            if rng.random() < 0.5:
+                # wanted protein computed straight from Biopython's table (not with the library)
+                from Bio.Data import CodonTable
+                t = CodonTable.unambiguous_dna_by_name[table]
                 a, b, st = loc if loc is not None else (0, len(seq), 1)
                 sub = seq[a:b] if st != -1 else rcs(seq[a:b])
-                tr = list(translate(sub, table=table, assume_start_codon=pol is not None))
+                tr = [t.forward_table.get(sub[i:i + 3], "*") for i in range(0, len(sub) - len(sub) % 3, 3)]
+                if pol is not None and sub[:3] in t.start_codons:
+                    tr[0] = "M"
                 if len(tr) > 1 and rng.random() < 0.5:
                     tr[rng.randrange(1, len(tr))] = rng.choice("ACDEFGHIKLMNPQRSTVWY")
                 kw["translation"] = "".join(tr)
         return (cls, tuple(sorted(kw.items()))), role, seq
     if cls == "AvoidChanges":
         mode = rng.random()
-        if mode < 0.55:
+        if mode < 0.4:
             kw = {"location": rng.choice([None, rloc(rng, n, strands=(0, 1, -1))])}
-        elif mode < 0.8:
+        elif mode < 0.6:
             kw = {"indices": tuple(sorted(rng.sample(range(n), rng.randint(1, min(6, n)))))}
         else:
-            kw = {"location": rloc(rng, n), rng.choice(["max_edits", "max_edits_percent"]): rng.choice([1, 2, 10, 50])}
+            budget = rng.choice(["max_edits", "max_edits", "max_edits_percent"])
+            kw = {"location": rloc(rng, n, minlen=6), budget: rng.choice([1, 2, 2, 3] if budget == "max_edits" else [10, 20, 50])}
+            if rng.random() < 0.7:
+                # the sequence to keep differs from the current one: part of the edit budget is already spent
+                a, b, strand = kw["location"]
+                sub = seq[a:b] if strand != -1 else rcs(seq[a:b])
+                t = list(sub)
+                for _ in range(rng.randint(1, 3)):
+                    i = rng.randrange(len(t))
+                    t[i] = rng.choice([c for c in "ACGT" if c != t[i]])
+                kw["target_sequence"] = "".join(t)
         if rng.random() < 0.3:
             role = "objective"
         return (cls, tuple(sorted(kw.items()))), role, seq
